@@ -504,6 +504,74 @@ func c18BothEnds(r *fw.Run, g *Rig, d *upgradeDisp, tr string, round, nconn int,
 	}
 }
 
+// slowStartConn: a transport whose Read takes a while to get going (every Read first waits `delay`, then reads with the
+// deadline that is in force at that moment) - a congested tunnel, a bridge on a loaded machine.
+type slowStartConn struct {
+	net.Conn
+	delay time.Duration
+}
+
+func (c *slowStartConn) Read(b []byte) (int, error) {
+	time.Sleep(c.delay)
+	return c.Conn.Read(b)
+}
+
+// c18SlowTransport: frame read, then a short poll that times out with nothing in flight, then payload read with raw
+// reads - on a transport whose reads start late. The poll must not cost any byte that arrives later.
+func c18SlowTransport(r *fw.Run, k int) {
+	delay := time.Duration(120+k%3*60) * time.Millisecond
+	cse := map[string]interface{}{"what": "slow transport: frame read, poll that times out, raw reads", "read_start_delay_ms": delay.Milliseconds()}
+	a, b, err := unixPair()
+	if err != nil {
+		r.Inconclusive("slow transport: %v", err)
+		return
+	}
+	defer a.Close()
+	defer b.Close()
+	rw := varlink.VerifNewCtxConn(&slowStartConn{Conn: a, delay: delay})
+	frame := append([]byte(fmt.Sprintf(`{"parameters":{"frame":%d}}`, k)), 0)
+	b.SetWriteDeadline(time.Now().Add(20 * time.Second))
+	b.Write(frame)
+	live, cancelLive := context.WithCancel(context.Background())
+	defer cancelLive()
+	wd := time.AfterFunc(60*time.Second, cancelLive)
+	defer wd.Stop()
+	got, err := rw.ReadBytes(live, 0)
+	if err != nil || !bytes.Equal(got, frame) {
+		r.Violation("C18 stream-not-contiguous", fmt.Sprintf("slow transport: the frame read returned %q, %v; the peer sent %q", clip(string(got), 80), err, clip(string(frame), 80)), cse)
+		return
+	}
+	pctx, pcancel := context.WithTimeout(context.Background(), 20*time.Millisecond)
+	_, perr := rw.ReadBytes(pctx, 0)
+	pcancel()
+	if perr == nil {
+		r.Violation("C18 stream-not-contiguous", "slow transport: a poll with nothing in flight returned success", cse)
+		return
+	}
+	want := []byte("PAYLOAD-1;PAYLOAD-2;")
+	b.Write(want[:10])
+	var payload []byte
+	for len(payload) < len(want) {
+		buf := make([]byte, 64)
+		n, err := rw.Read(live, buf)
+		payload = append(payload, buf[:n]...)
+		if len(payload) >= 10 && len(payload) < len(want) {
+			b.Write(want[10:])
+		}
+		if err != nil {
+			break
+		}
+		if !bytes.HasPrefix(want, payload) {
+			break
+		}
+	}
+	if !bytes.Equal(payload, want) {
+		r.Violation("C18 upgraded-bytes-lost", fmt.Sprintf("slow transport (reads start %v late): after a frame read and a 20 ms poll that timed out the peer sent %q; raw reads returned %q", delay, want, clip(string(payload), 80)), cse)
+	}
+	r.Count("slow_transport_runs", 1)
+	r.Case(fw.Hash("slow-transport", fmt.Sprint(k%3)), true)
+}
+
 // c18Duplex: the peer echoes; the library side writes the stream in one goroutine and reads the echo in another.
 // What is read must be exactly what was written.
 func c18Duplex(r *fw.Run, transport string, S []byte, k int) {
@@ -742,6 +810,11 @@ func runC18(r *fw.Run) {
 		}
 		g.Stop()
 	}
+	for k := 0; k < r.Pick(6, 60) && r.ViolationCount() <= 24; k++ {
+		r.Journal(0, map[string]interface{}{"what": "slow transport", "k": k})
+		c18SlowTransport(r, k)
+		r.Done(0)
+	}
 	srv, err := newRawServer(r.WorkDir)
 	if err == nil {
 		defer srv.Close()
@@ -798,7 +871,7 @@ func replayC18(r *fw.Run, raw json.RawMessage) {
 func init() {
 	fw.Register(&fw.Engine{
 		ID: "C18", Level: "exploration",
-		Rule: "(a) stream-integrity monitor on the library's context aware connection (white-box constructor) over an in-memory pipe, a unix socketpair and a TCP pair: the peer sends a known byte stream (frames and raw payload mixed, NULs anywhere, lengths 0..70000 around 4096/8192) under a segmentation schedule (one write, byte-wise, random cuts with pauses, at frame boundaries, at 4095/4096/4097...), the consumer interleaves ReadBytes(NUL) and Read(n), n in {1,3,5,7,16,4095,4096,4097,65536} in 11 patterns; after every read the concatenation of everything returned must be a prefix of what was sent, and equal to it at end of stream; plus the decisive shape 'frame and raw payload in one segment'. (b) end to end: a raw client sends an upgrade call and the payload in one segment (and in two) to a real Service whose handler then reads Call.Conn; a scripted server sends reply frame and payload in one segment (and in two) to a real Connection that called Upgrade and reads the returned object. The bytes read must be exactly the payload, starting immediately after the frame. non-trivial = stream longer than one byte; distinct by (stream hash, schedule, read pattern). Also: frames of 4090..70000 bytes with the payload in the same segment; duplex use (one goroutine writes a stream, another reads its echo on the same connection). A frame read must end at the first delimiter. Also frames whose length with the delimiter is a multiple of 4096 (4096 .. 65536, thorough to 1 MiB) or up to three bytes off, payload coalesced behind them. Real client Connections calling Upgrade against a real Service, 1-6 at a time, each client closing its Connection twice: every handler gets exactly its own client's payload.",
+		Rule: "(a) stream-integrity monitor on the library's context aware connection (white-box constructor) over an in-memory pipe, a unix socketpair and a TCP pair: the peer sends a known byte stream (frames and raw payload mixed, NULs anywhere, lengths 0..70000 around 4096/8192) under a segmentation schedule (one write, byte-wise, random cuts with pauses, at frame boundaries, at 4095/4096/4097...), the consumer interleaves ReadBytes(NUL) and Read(n), n in {1,3,5,7,16,4095,4096,4097,65536} in 11 patterns; after every read the concatenation of everything returned must be a prefix of what was sent, and equal to it at end of stream; plus the decisive shape 'frame and raw payload in one segment'. (b) end to end: a raw client sends an upgrade call and the payload in one segment (and in two) to a real Service whose handler then reads Call.Conn; a scripted server sends reply frame and payload in one segment (and in two) to a real Connection that called Upgrade and reads the returned object. The bytes read must be exactly the payload, starting immediately after the frame. non-trivial = stream longer than one byte; distinct by (stream hash, schedule, read pattern). Also: frames of 4090..70000 bytes with the payload in the same segment; duplex use (one goroutine writes a stream, another reads its echo on the same connection). A frame read must end at the first delimiter. Also frames whose length with the delimiter is a multiple of 4096 (4096 .. 65536, thorough to 1 MiB) or up to three bytes off, payload coalesced behind them. Real client Connections calling Upgrade against a real Service, 1-6 at a time, each client closing its Connection twice: every handler gets exactly its own client's payload. On a transport whose reads start 120-240 ms late: frame read, a 20 ms poll that times out, then raw reads get every byte sent afterwards.",
 		Assumptions: []string{"a second segment is sent after the payload so that a reader that skipped the coalesced bytes is seen to return later bytes instead"},
 		Run:         runC18, Replay: replayC18, CrashIsViolation: true, MinEvals: 100,
 		QuickTimeout: 15 * time.Minute, ThoroughTimeout: 60 * time.Minute,
